@@ -43,7 +43,7 @@ def _ops(v, js=(1, 2, 3), faults=(), extra=()):
 
 def templates(tier="quick"):
     T = []
-    d = 3 if tier == "quick" else 4
+    d = 4 if tier == "quick" else 5
 
     def add(name, v, faults=(), js=(1, 2, 3), extra=(), files=None, tags=(), variants=None):
         ops, nb = _ops(v, js=js, faults=faults, extra=extra)
